@@ -85,3 +85,33 @@ def prog_herm3():
         hermitian
 
     return "M", "A"
+
+
+def prog_primes():
+    # names in the library's style: "U @ H" is a string prefix of "U @ H' @ U" without being its leading factors,
+    # and "U'" of "U'†"-like names; declared products of two, three and four factors
+    with "U":
+        start = 0
+        f("H") / 2
+
+    with "H'":
+        start = 0
+        g("H") + "U".adj
+
+    with "W":
+        start = 0
+        "U @ H" - "U @ H' @ U" / 3 + "H' @ U @ H' @ U"
+
+    with "U @ H":
+        pass
+
+    with "U @ H' @ U":
+        pass
+
+    with "H' @ U":
+        pass
+
+    with "H' @ U @ H' @ U":
+        pass
+
+    return "W", "H'"
